@@ -1,7 +1,7 @@
 //! C05 - no input can crash or hang the interpreter.
 use simcore::exec::{Exec, Mode, Sink, Tok};
 use simcore::rng::Rng;
-use simcore::spec::{Family, Model};
+use simcore::spec::Family;
 use simcore::world::Ev;
 
 use super::common::{any_stream, pick_iface};
@@ -16,7 +16,7 @@ pub static C05: C05T = C05T;
 pub fn generate(seed: u64, thorough: bool) -> Scenario {
     let mut rng = Rng::new(seed);
     let (iface, cap) = pick_iface(&mut rng, &[Family::Tree, Family::Tree, Family::Zoo, Family::Queue]);
-    let m = Model::of(iface);
+    let m = simcore::spec::model(iface);
     let n = *rng.pick(simcore::spec::IFACES[iface].ns);
     let (stream, _class) = any_stream(&mut rng, &m, n, 120);
     let mut sc = Scenario { prop: "C05".into(), seed, iface, cap, n, stream, ..Default::default() };
